@@ -49,14 +49,14 @@ type TraceStep struct {
 }
 
 type Sched struct {
-	mu     sync.Mutex
-	gids   map[uint64]int
-	thr    []*sthread
-	events chan sevent
-	Trace  []TraceStep
+	mu      sync.Mutex
+	gids    map[uint64]int
+	thr     []*sthread
+	events  chan sevent
+	Trace   []TraceStep
 	Choices []int
-	grace  time.Duration
-	panics []string
+	grace   time.Duration
+	panics  []string
 }
 
 func NewSched(n int, grace time.Duration) *Sched {
@@ -219,6 +219,7 @@ func (r *randomChooser) choose(step int, parked []int) int {
 }
 
 func installHook(s *Sched) {
+	curSched = s
 	column.VerifHook.Store(func(p string, c uint32) { s.Yield(p, c) })
 	userYield = func(p string) { s.Yield(p, 0) }
 }
@@ -245,7 +246,7 @@ func newPCT(rng *Rng, depth, horizon int) *pctChooser {
 }
 
 func (p *pctChooser) choose(step int, parked []int) int {
-	best, bi := -1 << 30, 0
+	best, bi := -1<<30, 0
 	for i, t := range parked {
 		if _, ok := p.prio[t]; !ok {
 			p.prio[t] = 1000 + p.rng.Intn(1000)
@@ -260,3 +261,31 @@ func (p *pctChooser) choose(step int, parked []int) int {
 	}
 	return bi
 }
+
+// coarseChooser: pre-emption only at the boundaries of whole protocol steps - a thread runs from one
+// major point (the start of a block's commit, of a snapshot's block read, of a reader's callback,
+// of a schema step) to the next without interruption; which thread goes next is random.  The
+// interleavings of whole block commits with whole block reads are few, so that orderings needing
+// three or four specific commits around two block reads are found quickly.
+type coarseChooser struct {
+	rng  *Rng
+	last int
+}
+
+var majorPoints = map[string]bool{"start": true, "w.begin": true, "s.open": true, "s.chunk": true, "s.close": true,
+	"s.copy": true, "r.begin": true, "r.end": true, "d.step": true, "d.end": true, "unblocked": true}
+
+func (c *coarseChooser) choose(step int, parked []int) int {
+	if s := curSched; s != nil && c.last >= 0 {
+		for i, tid := range parked {
+			if tid == c.last && !majorPoints[s.thr[tid].at] {
+				return i
+			}
+		}
+	}
+	i := c.rng.Intn(len(parked))
+	c.last = parked[i]
+	return i
+}
+
+var curSched *Sched
